@@ -27,6 +27,34 @@ def strip_generics(path):
     return ''.join(out)
 
 
+def canon_path(path):
+    """path of a function with every generic argument list erased, also inside a `<Type<..> as Trait<..>>::m` qualifier:
+    '<a::B<T, F> as c::D<T>>::m' -> '<a::B as c::D>::m'.  Generic parameters are named per impl block and may be renamed freely."""
+    p = strip_generics(path)
+    out, depth, i, n = [], 0, 0, len(p)
+    lead = p.startswith('<')
+    while i < n:
+        ch = p[i]
+        if ch == '<':
+            if i == 0 and lead:
+                out.append(ch)          # the qualifier's own bracket
+            else:
+                depth += 1
+            i += 1
+            continue
+        if ch == '>' and (i == 0 or p[i - 1] != '-'):
+            if depth > 0:
+                depth -= 1
+            else:
+                out.append(ch)
+            i += 1
+            continue
+        if depth == 0:
+            out.append(ch)
+        i += 1
+    return ''.join(out)
+
+
 def type_head(ty):
     ty = ty.strip()
     while ty.startswith('&'):
